@@ -632,7 +632,12 @@ func (x *Exec) analyseLoop(fr *Frame, nodes ...ast.Node) loopInfo {
 					if sel, ok := info.Selections[se]; ok && sel.Kind() == types.MethodVal {
 						if sig, ok := sel.Obj().Type().(*types.Signature); ok && sig.Recv() != nil {
 							if _, isPtr := sig.Recv().Type().(*types.Pointer); isPtr {
-								mark(se.X)
+								// the implicit &x of a value receiver expression writes x; a pointer variable is only read
+								if xt := info.TypeOf(se.X); xt != nil {
+									if _, xIsPtr := xt.Underlying().(*types.Pointer); !xIsPtr {
+										mark(se.X)
+									}
+								}
 							}
 						}
 					}
@@ -871,6 +876,12 @@ func (x *Exec) setRangeVar(fr *Frame, s *ast.RangeStmt, e ast.Expr, st *State, v
 
 func (x *Exec) rangeStmt(fr *Frame, s *ast.RangeStmt, st *State, k func(*State)) {
 	x.expr(fr, s.X, st, func(st *State, rv Value) {
+		if sv, ok := rv.(SliceV); ok && sv.Len.Op == "int" && sv.Len.Int.IsInt64() && sv.Len.Int.Int64() <= 16 && isZeroLit(sv.Off) {
+			if lcc := x.loopContract(fr, s); lcc.lc == nil {
+				x.unrollRange(fr, s, sv, st, k)
+				return
+			}
+		}
 		if fv, ok := rv.(FuncV); ok && fv.Sym != nil {
 			if src, ok := x.iterSources[fv.Sym.Name]; ok && src.kind == "splitseq" {
 				// range over strings.SplitSeq: iterate the abstract piece sequence
@@ -1079,4 +1090,29 @@ func (st *State) ghostTerm(name string) *Term {
 		return v.T
 	}
 	return nil
+}
+
+// unrollRange executes a range loop over a slice of small constant length
+// (typically a literal list) iteration by iteration: complete, no bound involved.
+func (x *Exec) unrollRange(fr *Frame, s *ast.RangeStmt, sv SliceV, st *State, k func(*State)) {
+	n := int(sv.Len.Int.Int64())
+	var iter func(i int, st *State)
+	iter = func(i int, st *State) {
+		if st.dead {
+			return
+		}
+		if i == n {
+			k(st)
+			return
+		}
+		x.setRangeVar(fr, s, s.Key, st, IntV{IntLit(int64(i))})
+		if s.Value != nil {
+			x.setRangeVar(fr, s, s.Value, st, x.sliceAt(sv, IntLit(int64(i))))
+		}
+		fr.breakK[s] = k
+		next := func(st *State) { iter(i+1, st) }
+		fr.contK[s] = next
+		x.stmt(fr, s.Body, st, next)
+	}
+	iter(0, st)
 }
